@@ -31,9 +31,68 @@ def check(chk):
     from . import shared
     shared.grouping_rules(chk, m, 'R2.8')
     c04.chain_rules(chk, m, 'R2.9')       # which definition is in force: lookup through the frames, nothing copied between them
+    r210(chk, m)
     chk.decline('equality of the processed text with an independent TeX evaluation of the program (value-level over token '
                 'streams; a static encoding would be an interpreter for TeX expansion)')
     chk.decline('delimited-parameter matching for concrete argument shapes; \\csname / \\expandafter reordering results')
+
+
+def r210(chk, m):
+    R = chk.rule('R2.10', 'the \\def primitive interpreted on scripted arguments: a definition written inside another macro body (## marks) is '
+                 'registered with one level of # removed from both the parameter text and the body, a plain one is registered as written; the '
+                 'name, the two token lists and the scope flag reach Context.newdef', 3)
+    prim = 'plasTeX.Base.TeX.Primitives'
+    Def = m.cls(prim, 'DefCommand')
+    fn = m.find_method(Def, 'invoke')
+    need(fn is not None, 'DefCommand.invoke not found')
+    chk.analysed(fn)
+
+    def tok(ch):
+        return A.Obj('tok:%s' % ch, {'catcode': CC_PARAMETER if ch == '#' else (CC_LETTER if ch.isalpha() else CC_OTHER), 'CC_PARAMETER': CC_PARAMETER,
+                                     'nodeName': ch, '__eqkey': ('tok', ch)})
+
+    class H(SelfHooks):
+        def lookup(self, interp, name, state):
+            return None
+
+        def keep(self, ev):
+            return False
+
+        def call(self, interp, node, fname, args, kwargs, state):
+            if fname == 'self.parse':
+                return A.NONE
+            if fname == 'the.context.newdef':
+                show = lambda lst: ''.join(x.attrs.get('nodeName', '?') if isinstance(x, A.Obj) else '?' for x in lst) if isinstance(lst, list) else 'TOP'
+                state.env['__newdef'] = state.env.get('__newdef', ()) + ((args[0] if args and isinstance(args[0], str) else 'TOP',
+                                                                          show(args[1]) if len(args) > 1 else 'TOP', show(args[2]) if len(args) > 2 else 'TOP',
+                                                                          repr(kwargs.get('local', args[3] if len(args) > 3 else 'default'))),)
+                return A.NONE
+            if re.match(r'\w*log\.\w+$', fname):
+                return A.NONE
+            return None
+    for label, cname, args, body, want in (
+            ('written inside another macro body (##1)', 'def_', '##1', '[##1]', ('inner', '#1', '[#1]', 'True')),
+            ('a plain definition (#1#2)', 'def_', '#1.#2', '#2#1', ('inner', '#1.#2', '#2#1', 'True')),
+            ('a global definition inside a macro body', 'gdef', '##1##2', '##2-##1', ('inner', '#1#2', '#2-#1', 'False'))):
+        c = m.cls(prim, cname)
+        h = H(m, c)
+        h.should_inline = A.private_only
+        it = A.Interp(model=m, scope=fn, hooks=h, max_iter=12, exc_edges=False, inline=4, heap=True, precise_exc=True)
+        ctx = A.Obj('context', {'newdef': A.Sym('extfunc:the.context.newdef', truthy=True)})
+        me = A.Obj('def', {'attributes': {'name': A.Obj('name', {'nodeName': 'inner'}), 'args': [tok(ch) for ch in args], 'definition': [tok(ch) for ch in body]},
+                           'ownerDocument': A.Obj('document', {'context': ctx})}, cls=c)
+        try:
+            outs = it.run_function(fn, env={'self': me, 'tex': A.Sym('tex', truthy=True)})
+        except AnalysisError as e:
+            chk.undecided(R, 'DefCommand.invoke: %s' % label, str(e), chk.where(fn))
+            continue
+        if it.imprecise or it.unknown_branches:
+            chk.undecided(R, 'DefCommand.invoke: %s' % label, '; '.join((list(it.imprecise) + list(it.unknown_branches))[:3]), chk.where(fn))
+            continue
+        got = {(kind, s2.env.get('__newdef', ())) for kind, s2, v in outs}
+        chk.decide(R, 'DefCommand.invoke: %s' % label, got, {('return', (want,))},
+                   '\\%s\\inner%s{%s} hands Context.newdef (name, parameter text, body, local) = %s; expected %s - inside a macro body ## stands for one #, '
+                   'so the inner definition must be stored with single marks' % (cname.rstrip('_'), args, body, sorted(got), want), chk.where(fn))
 
 
 def T(label, catcode, char=None):
